@@ -80,7 +80,15 @@ func (res *Result) GetDebugOutput() string {
 	return res.output
 }
 
-func (res *Result) GetNumResult() (float64, error) {
+// A value that cannot be converted (an invalid datum handed back by a custom
+// function, say) is an error for the accessor to return, not a panic.
+func recoverConversion(err *error) {
+	if r := recover(); r != nil {
+		*err = fmt.Errorf("%v", r)
+	}
+}
+
+func (res *Result) GetNumResult() (num float64, err error) {
 	if res.runErr != nil {
 		return 0, res.runErr
 	}
@@ -89,12 +97,13 @@ func (res *Result) GetNumResult() (float64, error) {
 		return 0, fmt.Errorf("No result to return for number.")
 	}
 
+	defer recoverConversion(&err)
 	return res.value.Number("GetNumResult"), nil
 }
 
 func (res *Result) IsNumber() bool { return isNum(res.value) }
 
-func (res *Result) GetBoolResult() (bool, error) {
+func (res *Result) GetBoolResult() (b bool, err error) {
 	if res.runErr != nil {
 		return false, res.runErr
 	}
@@ -103,10 +112,11 @@ func (res *Result) GetBoolResult() (bool, error) {
 		return false, fmt.Errorf("No result to return for boolean.")
 	}
 
+	defer recoverConversion(&err)
 	return res.value.Boolean("GetBoolResult"), nil
 }
 
-func (res *Result) GetLiteralResult() (string, error) {
+func (res *Result) GetLiteralResult() (lit string, err error) {
 	if res.runErr != nil {
 		return "", res.runErr
 	}
@@ -115,6 +125,7 @@ func (res *Result) GetLiteralResult() (string, error) {
 		return "", fmt.Errorf("No result to return for literal.")
 	}
 
+	defer recoverConversion(&err)
 	return res.value.Literal("GetLiteralResult"), nil
 }
 
